@@ -7,7 +7,8 @@ open(os.path.join(HERE, "seeded/MATRIX.md"), "w").write(table)
 p = os.path.join(HERE, "DESIGN.md")
 s = open(p).read()
 i = s.index("| seed | property | change (abridged) |")
-j = s.index("-" * 75, i)
-s = s[:i] + table.rstrip("\n") + "\n\n\n" + s[j:]
+m = re.search(r"\n\d+ of \d+ seeded changes are reported by at least one registered check\.\n", s[i:])
+j = i + m.end()
+s = s[:i] + table.rstrip("\n") + "\n" + s[j:]
 open(p, "w").write(s)
 print(table.strip().split("\n")[-1])
